@@ -63,7 +63,7 @@ def relational_for(prop, ctx, lane):
     if prop in ("C05", "ALL") and ctx.plan["config"]["task"] == "tracking":
         OR.check_rename_twin(ctx, lane)
         OR.check_identity_fault_twins(ctx, lane)
-    if prop in ("C07", "ALL") and ctx.plan["config"]["task"] != "fp_validation":
+    if prop in ("C07", "ALL") and ctx.plan["config"]["task"] != "fp_validation" and ctx.plan["config"].get("dim") != 2:
         OR.check_frame_twin(ctx, lane)
     if prop in ("C08", "ALL"):
         OR.check_looser_passfail(ctx, lane)
@@ -166,7 +166,11 @@ def run_case(plan, prop, want_log=False):
         ctx = X.Ctx(plan, root)
         if prop in ("C13", "ALL") and plan.get("run", 0) % 3 == 1:
             OR.run_prelude_evaluator(ctx)
-        lane = X.Lane(ctx, "main", monitors=monitors_for(prop))
+        mons = monitors_for(prop)
+        if plan["config"].get("dim") == 2:
+            # camera worlds carry image ROIs: the loader / lookup / analysis / frame-twin oracles are about boxes in space
+            mons = [m for m in mons if not isinstance(m, (OW.C16Monitor, OW.C17Monitor, OA.C19Monitor))]
+        lane = X.Lane(ctx, "main", monitors=mons)
         lane.run()
         relational_for(prop, ctx, lane)
         vio = [_json(dict(v)) for v in ctx.violations]
@@ -189,7 +193,7 @@ def run_case(plan, prop, want_log=False):
         out["trace"] = trace_shape(plan)
         cfg = plan["config"]
         out["state_keys"] = sorted(set(
-            "%s|%s|%d|%s|%s|%d" % (cfg["task"], cfg["frame"], min(5, st.n_results_before or 0), st.frame_kind,
+            "%s|%s|%d|%s|%s|%d" % (cfg["task"], cfg["frame"] if cfg.get("dim") != 2 else "cam", min(5, st.n_results_before or 0), st.frame_kind,
                                    "c" if "crit" in st.op else "-", st.manager_gen)
             for st in steps
         ))
